@@ -21,6 +21,7 @@ EXPLANATION = (
 DECLINED = ["'smallest unused rank' (loop arithmetic over the sorted list)", "repeated revive histories"]
 ASSUMPTIONS = ["pthread mutex/cond semantics"]
 RULES_DOC = dict(common.SHARED_DOC)
+RULES_DOC["X9"] = common.X9_DOC
 RULES_DOC["X8"] = common.X8_DOC
 RULES_DOC["X7"] = common.X7_DOC
 RULES_DOC["X4"] = common.X4_DOC
@@ -28,6 +29,7 @@ RULES_DOC["R7"] = "a scheduler is marked used = ABTI_SCHED_MAIN before it is ins
 RULES_DOC["X5"] = common.X5_DOC
 RULES_DOC["R8"] = "rank list insertion: on every path of xstream_add_xstream_list the inserted stream's forward link is assigned, and its backward link is assigned unless it becomes the head (a stream re-inserted by ABT_xstream_set_rank carries no stale link: no cycle, no walk into freed memory)"
 RULES_DOC["R9"] = "= C06.R1/R3/R4: the callback that suspends a ULT for a main-scheduler replacement counts it on the pool it belongs to after request handling (a stream whose pool count is off by one can never be joined, its rank is never returned)"
+RULES_DOC["R12"] = "= C12.R4: reviving a stream (its main-scheduler ULT) clears the whole request word: a cancel / exit request left from the previous life does not terminate the revived stream at its first event check"
 RULES_DOC["R11"] = "user-supplied ranks are non-negative: ABT_xstream_set_rank and ABT_xstream_create_with_rank reach the list update only when the governing argument tests admit 0, 1, ... and reject -1 (the internal any-rank value) and below"
 RULES_DOC["R10"] = "the thread-local 'current stream' pointer is cleared wherever the stream it names is given up: after ABT_finalize freed the primary stream, and when a stream's OS thread leaves its root loop (an OS thread that once was a stream must be an external thread afterwards)"
 RULES_DOC.update({
@@ -467,18 +469,34 @@ def rule_R8(P, rep):
         n += 1
         mine = {}
         head = False
+        succ = pred = False       # the inserted stream got a non-NULL successor / predecessor on this path
+        back = fwd = False        # a neighbour's p_prev / p_next was pointed at the inserted stream
         for t in toks:
             if t[0] != "st":
                 continue
             nd = F.nodes[t[-1]]
+            if nd.get("rh") is None:
+                continue
             root = canon.rooted(F, nd["lh"])
+            val = canon.rooted(F, nd["rh"])
+            isnull = F.nodes[F.strip(nd["rh"])].get("cv") == 0
             if root == "%s->p_next" % new:
                 mine["p_next"] = True
-            if root == "%s->p_prev" % new:
+                succ = not isnull
+            elif root == "%s->p_prev" % new:
                 mine["p_prev"] = True
-            if t[1] == "ABTI_global::p_xstream_head" and canon.rooted(F, nd["rh"]) == new:
+                pred = not isnull
+            elif t[1] == "ABTI_xstream::p_prev" and val == new:
+                back = True
+            elif t[1] == "ABTI_xstream::p_next" and val == new:
+                fwd = True
+            if t[1] == "ABTI_global::p_xstream_head" and val == new:
                 head = True
         why = []
+        if succ and not back:
+            why.append("the successor's p_prev is not pointed at the inserted stream (the list can no longer be walked or unlinked backwards)")
+        if pred and not fwd and not head:
+            why.append("the predecessor's p_next is not pointed at the inserted stream")
         if not mine.get("p_next"):
             why.append("the forward link of the inserted stream is not assigned (a stale p_next survives a re-insertion)")
         if not mine.get("p_prev") and not head:
@@ -540,6 +558,7 @@ def rule_R11(P, rep):
 
 
 def run(P, rep, tier):
+    common.rule_X9(P, rep, fields=[('ABTI_sched', 'request')])
     common.rule_X8(P, rep)
     common.rule_X7(P, rep, records=('ABTI_xstream',))
     common.rule_widths(P, rep, [('ABTI_global', 'num_xstreams'), ('ABTI_xstream', 'rank')])
@@ -554,3 +573,5 @@ def run(P, rep, tier):
     common.borrow(rep, P, C06.rule_R1_R3_R4, "R9")
     rule_R10(P, rep)
     rule_R11(P, rep)
+    from . import C12
+    common.borrow(rep, P, C12.rule_R4, "R12")
